@@ -1,0 +1,17 @@
+//go:build verif
+
+package txsubmission
+
+// Contracts for /verif (contract-based deductive verification). Comment-only.
+
+// C24: the inbound side's acknowledgement window. Between calls s.ackCount is the number of
+// transaction ids received and not yet acknowledged (ghost field `unacked`); a request acknowledges
+// exactly that many, both counts fit 0..65535 (the property's literal), and after a successful
+// reply carrying n ids the window is n.
+//@ func (s *Server) RequestTxIds(blocking, reqCount) (ids, err)
+//@   props C24
+//@   requires window: s.ackCount == gf(s, unacked)
+//@   callback call:NewMsgRequestTxIds requires ack: N(arg1) <= N(old(gf(s, unacked))) && Z(old(s.ackCount)) == N(arg1) && Z(reqCount) == N(arg2) && 0 <= old(s.ackCount) && old(s.ackCount) <= 65535 && 0 <= reqCount && reqCount <= 65535 && arg0 == blocking
+//@   ensures sent: err == nil ==> called(NewMsgRequestTxIds)
+//@   ensures window: err == nil ==> s.ackCount == len(ids)
+//@   ensures range: reqCount < 0 || reqCount > 65535 || old(s.ackCount) < 0 || old(s.ackCount) > 65535 ==> err != nil && !called(NewMsgRequestTxIds)
